@@ -155,6 +155,11 @@ func runText(c *hx.Ctx, r *hx.Rng, work string) error {
 			for !txValidText(s) {
 				s = genText(r)
 			}
+			if r.Chance(6) {
+				// Latin-1 / truncated text: a lead byte followed by ASCII bytes becomes one token that
+				// shares its first byte with well-formed characters (华 为 云 日 本) of other rows
+				s += []string{" ", "", "."}[r.Intn(3)] + []string{"\xe5nt", "\xe4x1", "\xe6ab", "caf\xe9 a"}[r.Intn(4)]
+			}
 			row[f] = sval{ok: true, s: s}
 		}
 		b.rows = append(b.rows, row)
